@@ -1,17 +1,17 @@
 SPECIFICATION Spec
 CONSTANTS
-  Prog <- P_rcust
+  Prog <- P_churn
   Threads = {1, 2}
   Conts = {1}
   NF = 1
   GenMod = 4
-  NAddr = 4
+  NAddr = 3
   MaxNodes = 3
-  MaxObj = 6
+  MaxObj = 3
   WrapMode = "fixed"
   MaxSpur = 1
   SoloOn = TRUE
-  Bug = ""
+  Bug = "cooldown_wait"
   Hist = "off"
   UseFast = TRUE
 INVARIANTS Refines SoloProgress SoloBound
